@@ -8,7 +8,7 @@ From AV Require Import Model.ClientReq Proofs.ClientReqBase Proofs.ClientReqStep
 From Coq Require Import Lia.
 
 (* ------------------------------------------------------------------ WITH WHAT pending work ends inside close() *)
-Definition failres (r : res) : Prop := r = RClosed \/ r = RUnavail \/ r = RKCancelled \/ r = ROpNone.
+Definition failres (r : res) : Prop := r = RClosed \/ r = RUnavail \/ r = RKCancelled \/ r = ROpNone \/ r = RCancelled.
 
 (* [Rop C o C']: an operation whose phase changed was told so, with a failure (or the None of F-C20-2) *)
 Definition Rop (C : cstate) (o : list output) (C' : cstate) : Prop :=
@@ -30,7 +30,7 @@ Proof. intros E p. left. unfold phase_of. rewrite E. reflexivity. Qed.
 
 Lemma failres_op_result kind r : r = RClosed \/ r = RKCancelled \/ r = RTimedOut -> kind =? 1 = true \/ r <> RTimedOut -> failres (op_result kind r).
 Proof.
-  unfold op_result, failres. intros [->|[->| ->]] K; destruct (kind =? 1); auto; destruct K as [K|K]; try discriminate; congruence.
+  unfold op_result, failres. intros [->|[->| ->]] K; destruct (kind =? 1); auto 7; destruct K as [K|K]; try discriminate; congruence.
 Qed.
 
 Lemma op_fail_Rop C p r : r = RClosed \/ r = RKCancelled -> Rop C (snd (op_fail C p r)) (fst (op_fail C p r)).
@@ -38,6 +38,14 @@ Proof.
   intro Hr. unfold op_fail. destruct (nth_error (c_ops C) p) as [o|] eqn:Eo; cbn [fst snd]; [|apply Rop_ops; reflexivity].
   intro p'. destruct (Nat.eq_dec p' p) as [->|N].
   - right. eexists. split; [left; reflexivity|]. apply failres_op_result; [tauto|]. right. destruct Hr as [->| ->]; discriminate.
+  - left. apply phase_set_other. exact N.
+Qed.
+
+Lemma op_fail_Rop_cancelled C p : Rop C (snd (op_fail C p RCancelled)) (fst (op_fail C p RCancelled)).
+Proof.
+  unfold op_fail. destruct (nth_error (c_ops C) p) as [o|] eqn:Eo; cbn [fst snd]; [|apply Rop_ops; reflexivity].
+  intro p'. destruct (Nat.eq_dec p' p) as [->|N].
+  - right. eexists. split; [left; reflexivity|]. unfold op_result, failres. destruct (o_kind o =? 1); auto 7.
   - left. apply phase_set_other. exact N.
 Qed.
 
@@ -102,7 +110,7 @@ Proof.
   - assert (forall q0 d0, Some q = Some q0 -> q_owner q0 = Direct d0 -> q_to q0 = false -> False) as NoD
       by (intros q0 d0 H0 Ho; injection H0 as <-; congruence).
     destruct (nth_error (c_ops C1) p) as [[k al rid ph]|]; [|cbn [fst snd]; repeat (split; auto); [apply Rop_ops; exact X4 | intros q0 d0 A B D; exfalso; eauto]].
-    destruct ph as [rest i' h'| | |];
+    destruct ph as [rest i' h'| | | |];
       try (cbn [fst snd]; repeat (split; auto); [apply Rop_ops; exact X4 | intros q0 d0 A B D; exfalso; eauto]).
     destruct (Nat.eqb j i' && Nat.eqb h h');
       [|cbn [fst snd]; repeat (split; auto); [apply Rop_ops; exact X4 | intros q0 d0 A B D; exfalso; eauto]].
@@ -234,6 +242,7 @@ Proof.
   set (X := match nth_error (c_ops C) p with
             | Some (mkOp _ _ _ (PBootConn a rest)) => let (C', o') := boot_next (set_boot C a KDead) p rest in (C', OBootCancel a :: o')
             | Some (mkOp _ _ _ (PBootReq a t rest)) => let (C', o') := boot_next C p rest in (C', OCancelTimer t :: OBootLose a :: o')
+            | Some (mkOp _ _ _ (PWait t)) => let (C', o') := op_fail C p RCancelled in (C', OCancelTimer t :: o')
             | _ => (C, []) end).
   assert (c_clients (fst X) = None /\ Rop C (snd X) (fst X)) as [H1 R1].
   { unfold X. destruct (nth_error (c_ops C) p) as [[k al rid ph]|]; [|split; [exact H | apply Rop_refl]].
@@ -245,7 +254,11 @@ Proof.
     - pose proof (boot_next_closing_Rop C p rest H) as Q.
       pose proof (g_boot_next Rnone Rnone_refl Rnone_trans Rnone_frame2 C p rest H) as N.
       destruct (boot_next C p rest) as [C' o']. cbn [fst snd] in *. split; [exact N|].
-      apply (Rop_more _ o' _ [OCancelTimer t; OBootLose a] []) in Q. rewrite app_nil_r in Q. exact Q. }
+      apply (Rop_more _ o' _ [OCancelTimer t; OBootLose a] []) in Q. rewrite app_nil_r in Q. exact Q.
+    - pose proof (op_fail_Rop_cancelled C p) as Q.
+      assert (c_clients (fst (op_fail C p RCancelled)) = None) as N by (unfold op_fail; destruct (nth_error (c_ops C) p); exact H).
+      destruct (op_fail C p RCancelled) as [C' o']. cbn [fst snd] in *. split; [exact N|].
+      apply (Rop_more _ o' _ [OCancelTimer t] []) in Q. rewrite app_nil_r in Q. exact Q. }
   destruct X as [C1 o1]. cbn [fst snd] in *. pose proof (IH C1 (S p) H1) as R2. destruct (cancel_boots C1 n (S p)) as [C2 o2]. cbn [fst snd] in *.
   apply (Rop_trans C o1 C1 o2 C2); assumption.
 Qed.
@@ -313,5 +326,5 @@ Proof. intros. eapply close_requests_fail; eauto; [apply reachable_wf | apply re
 Lemma c20_pending_operations_end g evs cl C' o p :
   c_clients (fst (run (init g) evs)) = Some cl -> step (fst (run (init g) evs)) EClose = (C', o) ->
   phase_of (fst (run (init g) evs)) p <> PDone ->
-  exists r, In (OOp p r) o /\ (r = RClosed \/ r = RUnavail \/ r = RKCancelled \/ r = ROpNone).
+  exists r, In (OOp p r) o /\ (r = RClosed \/ r = RUnavail \/ r = RKCancelled \/ r = ROpNone \/ r = RCancelled).
 Proof. intros. eapply close_operations_end; eauto; [apply reachable_wf | apply reachable_S]. Qed.
